@@ -600,3 +600,270 @@ def run(ctx):
     _run_main(ctx)
     extras(ctx)
     ctx.flush()
+
+
+# ---- extras2 (harness extension hx_a): large instances, extreme time steps, containers / dtypes, histories ---------------------------------
+#
+# Not demanded: float32 records (np.fft transforms them in single precision: complex64 spectrum, 3e-7 off the float64 one -- compared at
+# 1e-5 only); fns.frequency.calc_fourier_moment / get_bandwidth_boore_2003 (AttributeError: np.trapz is absent from the pinned NumPy).
+
+def _x2_spectrum(v, dt, how, kw):
+    """(spectrum, frequencies) through one public entry point on a FRESH object"""
+    import eqsig
+    from eqsig.fns import frequency as fq
+    if how == 'Signal.gen':
+        s = eqsig.Signal(v, dt)
+        s.gen_fa_spectrum(**kw)
+        return np.array(s.fa_spectrum), np.array(s.fa_frequencies)
+    if how == 'AccSignal.gen':
+        s = eqsig.AccSignal(v, dt)
+        s.gen_fa_spectrum(**kw)
+        return np.array(s.fa_spectrum), np.array(s.fa_freqs)
+    if how == 'lazy':
+        s = eqsig.AccSignal(v, dt)
+        return np.array(s.fa_spectrum), np.array(s.fa_freqs)
+    if how == 'generate':
+        f, g = fq.generate_fa_spectrum(eqsig.Signal(v, dt), **kw)
+        return np.array(f), np.array(g)
+    f, g = fq.calc_fa_spectrum(eqsig.AccSignal(v, dt), **kw)
+    return np.array(f), np.array(g)
+
+
+def _x2_dft_bins(v, N, ks):
+    """X_k = sum_j x_j exp(-2 pi i jk/N) of the record zero-padded / truncated to N, for a few bins, by the defining sum (O(len(v)) per bin;
+    the phase index j*k is reduced mod N in integers first)"""
+    x = np.asarray(v, dtype=float)[:N]
+    j = np.arange(len(x), dtype=np.int64)
+    out = []
+    for k in ks:
+        ph = ((j * int(k)) % N) * (2.0 * math.pi / N)
+        out.append(complex(float(np.dot(x, np.cos(ph))), -float(np.dot(x, np.sin(ph)))))
+    return out
+
+
+def _x2_entries(mode, npts):
+    if mode[0] == 'default':
+        return [('calc', {'p2_plus': 0}), ('lazy', {}), ('Signal.gen', {}), ('generate', {'n_pad': True})]
+    if mode[0] == 'p2':
+        return [('calc', {'p2_plus': mode[1]}), ('AccSignal.gen', {'p2_plus': mode[1]})]
+    if mode[0] == 'n':
+        return [('calc', {'n': mode[1]}), ('Signal.gen', {'n': mode[1]})]
+    return [('calc', {}), ('generate', {'n_pad': False}), ('AccSignal.gen', {'n': npts})]
+
+
+def x2_large(ctx):
+    """LARGE instances (records of 5 000 - 60 000 samples, transform lengths up to 2^17, odd and prime unpadded lengths): bins and grid for
+    the stated N, values against the independent O(N) defining sum on a SUBSET of bins, agreement of the entry points (bit for bit), Parseval,
+    trailing zeros, linearity, the inverse helper, the dominant period of an on-bin tone"""
+    import eqsig
+    from eqsig import im
+    from eqsig.fns import frequency as fq
+    rng = ctx.rng
+    quick = ctx.tier == 'quick'
+    cases = [(6000, ('default',)), (20001, ('unpadded',)), (40000, ('p2', 1))] if quick else \
+        [(6000, ('default',)), (20001, ('unpadded',)), (40000, ('p2', 1)), (5003, ('unpadded',)), (8192, ('default',)), (8193, ('default',)), (60000, ('n', 60000)),
+         (30000, ('n', 45001)), (16384, ('p2', 3)), (59999, ('unpadded',)), (12000, ('n', 10000))]
+    for npts, mode in cases:
+        dt = rng.choice([0.01, 0.005, 0.02, 0.0078125])
+        N = expected_N(npts, mode)
+        P = N // 2
+        k0 = rng.randint(P // 2, P - 3) if N >= 2 ** 16 else rng.randint(P // 50 + 2, P - 3)      # the dominant tone sits in the upper half of the bins of the longest transforms
+        j = np.arange(npts)
+        v = 0.3 * gen.noise_record(rng, npts) + 2.0 * np.cos(2 * math.pi * k0 * j / N + rng.uniform(0, 2 * math.pi)) + rng.choice([0.0, 0.7])
+        inputs = {'values': f'0.3 x gaussian noise + 2 cos(2 pi {k0} j / {N} + phase) + offset, npts={npts} (seed-derived)', 'dt': dt, 'mode': list(mode), 'N': N, 'head': v[:4]}
+        ctx.hist(f'large/npts={npts} N={N}')
+        ctx.count_case(('x2-large', npts, mode, dt, v[:16].tobytes()), True, sample={'fn': 'fa_spectrum (large instance)', 'npts': npts, 'dt': dt, 'mode': list(mode), 'N': N})
+        snap = v.copy()
+        res = [(how, kw, call_impl(_x2_spectrum, v, dt, how, kw)) for how, kw in _x2_entries(mode, npts)]
+        if any(r[0] != 'ok' for _, _, r in res):
+            ctx.oracle('C06 spectrum is returned on the domain (npts >= 2, N >= 1)', False, inputs, detail=[(h, r[0]) for h, _, r in res])
+            continue
+        fas, freqs = res[0][2][1]
+        ctx.oracle('C06.d object-level and array-level functions agree (Signal/AccSignal/generate_fa_spectrum/calc_fa_spectrum) [large instance]',
+                   all(np.array_equal(r[1][0], fas) and np.array_equal(r[1][1], freqs) for _, _, r in res[1:]), inputs, detail=[h for h, _, _ in res])
+        ctx.oracle('C06.a spectrum and frequencies have floor(N/2) bins for the stated N [large instance]', fas.shape == (P,) and freqs.shape == (P,), inputs,
+                   detail={'len_fas': len(fas), 'len_freqs': len(freqs)})
+        if not (fas.shape == (P,) and freqs.shape == (P,)):
+            continue
+        want_f = np.arange(P) / (N * dt)
+        ctx.oracle('C06.c frequencies are k/(N*dt), k = 0..N/2-1 [large instance]', bool(np.all(np.abs(freqs - want_f) <= 4 * 2.0 ** -53 * want_f)), inputs,
+                   detail={'first_bad': int(np.argmax(np.abs(freqs - want_f) > 4 * 2.0 ** -53 * want_f))})
+        ks = sorted(set([0, 1, 2, k0 - 1, k0, k0 + 1, P - 2, P - 1, P] + [rng.randrange(P) for _ in range(10)]))
+        ks = [k for k in ks if 0 <= k < N]
+        ref = dict(zip(ks, _x2_dft_bins(v, N, ks)))
+        sc = max(float(np.max(np.abs(fas))), float(np.max(np.abs(v))) * dt)
+        dev = max(abs(fas[k] - ref[k] * dt) for k in ks if k < P)
+        ctx.gap('impl vs independent defining sum (large instances)', dev / sc)
+        ctx.oracle('C06.b spectrum == dt * DFT of the record zero-padded/truncated to N (independent defining sum on a subset of bins) [large instance]', dev <= 1e-9 * sc,
+                   inputs, detail={'bins': ks, 'gap_rel': dev / sc})
+        xp = pad_to(v, N)
+        if P in ref:
+            Xk = fas / dt
+            e_time = float(np.sum(xp ** 2)) * N
+            tot = abs(Xk[0]) ** 2 + 2 * float(np.sum(np.abs(Xk[1:]) ** 2)) + (1 if N % 2 == 0 else 2) * abs(ref[P]) ** 2
+            ctx.oracle("C06.f Parseval: sum_k |X_k|^2 == N * sum_j |x_j|^2 [large instance]", abs(tot - e_time) <= 1e-9 * e_time, inputs, detail={'freq_side': float(tot), 'time_side': e_time})
+        # linearity, trailing zeros
+        w = gen.noise_record(rng, npts)
+        al, be = rng.choice([2.0, -3.0, 0.5]), rng.choice([1.0, -0.25])
+        how0, kw0 = res[0][0], res[0][1]
+        kwn = {'n': N}
+        f_w = _x2_spectrum(w, dt, 'calc', kwn)[0]
+        f_c = _x2_spectrum(al * v + be * w, dt, 'calc', kwn)[0]
+        okl, g = close(f_c, al * fas + be * f_w, 1e-9, max(float(np.max(np.abs(f_c))), sc))
+        ctx.oracle('C06.e spectrum is linear in the record [large instance]', okl, {**inputs, 'a': al, 'b': be}, detail={'gap_rel': g})
+        room = next_pow2(npts) - npts if mode[0] in ('default', 'p2') else (N - npts if mode[0] == 'n' else 0)
+        if room > 0:
+            m = rng.randint(1, room)
+            rz = call_impl(_x2_spectrum, np.concatenate([v, np.zeros(m)]), dt, how0, kw0)
+            ctx.oracle('C06.e trailing zeros that do not change N change nothing [large instance]',
+                       rz[0] == 'ok' and rz[1][0].shape == fas.shape and close(rz[1][0], fas, 1e-12, sc)[0] and np.array_equal(rz[1][1], freqs), {**inputs, 'zeros': m})
+        # inverse helper
+        fas_arg = np.array(fas)
+        rf = call_impl(fq.fas2values, fas_arg, dt)
+        ctx.oracle('C06.g fas2values leaves the spectrum it is given unchanged (bit for bit)', bool(np.array_equal(fas_arg, fas)), inputs)
+        if rf[0] != 'ok':
+            ctx.oracle('C06.g fas2values returns a series for a non-empty spectrum', False, inputs, detail=rf)
+        else:
+            s = np.asarray(rf[1])
+            ctx.oracle('C06.g fas2values returns 2*len(fas) samples (= N for even N) [large instance]', len(s) == 2 * P, inputs, detail={'len': len(s)}, facts={'N': N, 'len': len(s)})
+            if N % 2 == 0 and len(s) == N:
+                alt = (-1.0) ** np.arange(N)
+                want = xp - np.mean(xp) - alt * float(np.sum(alt * xp)) / N
+                d = float(np.max(np.abs(s - want)))
+                ctx.oracle('C06.g fas2values reconstructs the padded record minus its mean and Nyquist components [large instance]', d <= 1e-9 * float(np.max(np.abs(xp))), inputs,
+                           detail={'max_dev': d}, facts={'N': N, 'len': len(s)})
+            rs = call_impl(lambda: np.asarray(fq.fas2signal(np.array(fas), dt, stype=rng.choice(['signal', 'acc'])).values))
+            ctx.oracle('C06.g fas2signal carries the same samples as fas2values', rs[0] == 'ok' and np.array_equal(rs[1], s), inputs)
+        # dominant period: the on-bin tone (amplitude 2 against noise 0.3) dominates unless the offset bin does
+        o = eqsig.AccSignal(v, dt)
+        if mode[0] != 'default':
+            _ = o.fa_spectrum_abs
+            o.gen_fa_spectrum(**({'p2_plus': mode[1]} if mode[0] == 'p2' else {'n': N}))
+        r = call_impl(im.max_fa_period, o)
+        mod = np.abs(fas)
+        i = int(np.argmax(mod))
+        srt = np.sort(mod)
+        if srt[-1] > srt[-2] * (1 + 1e-9):
+            want = float('inf') if freqs[i] == 0 else 1.0 / float(freqs[i])
+            ctx.oracle('C06.h max_fa_period == period of the largest-|amplitude| bin [large instance]', r[0] == 'ok' and (float(r[1]) == want or abs(float(r[1]) - want) <= 1e-12 * want),
+                       inputs, detail={'got': r[1], 'want': want, 'bin': i}, facts={'bin': i})
+        ctx.oracle('input array unchanged', bool(np.array_equal(v, snap)), inputs)
+
+
+def x2_small(ctx):
+    """extreme time steps; containers / dtypes; histories on one object"""
+    import eqsig
+    from eqsig import im
+    from eqsig.fns import frequency as fq
+    rng = ctx.rng
+    for it in range(16 if ctx.tier == 'quick' else 160):
+        npts = rng.randint(3, 150)
+        dt = rng.choice([0.01, 0.02, 0.005, 0.1, 0.5])
+        whole = it % 2 == 0
+        v = gen.int_record(rng, npts) if whole else gen.dyadic_record(rng, npts)
+        if not np.any(v):
+            v[npts // 2] = 1.0
+        mode = rng.choice([('default',), ('p2', rng.randint(0, 3)), ('n', rng.randint(2, 2 * npts)), ('unpadded',)])
+        kw = {'default': {'p2_plus': 0}, 'p2': {'p2_plus': mode[-1]}, 'n': {'n': mode[-1]}, 'unpadded': {}}[mode[0]]
+        base = call_impl(_x2_spectrum, v, dt, 'calc', kw)
+        inputs = {'values': v, 'dt': dt, 'mode': list(mode)}
+        ctx.count_case(('x2-small', v.tobytes(), dt, mode), True)
+        if base[0] != 'ok' or len(base[1][0]) == 0:
+            continue
+        fas, freqs = base[1]
+        mod = np.sort(np.abs(fas))
+        unique_peak = len(mod) < 2 or mod[-1] > mod[-2] * (1 + 1e-9)
+        p0 = call_impl(im.max_fa_period, eqsig.AccSignal(v, dt))
+        s0 = call_impl(fq.fas2values, np.array(fas), dt)
+        # (a) the spectrum is dt x DFT, the grid k/(N dt): a power-of-two rescaling of dt rescales them exactly, also for extreme steps
+        for j in (-300, 300, -40, 40):
+            k = 2.0 ** j
+            ctx.hist(f'extreme-dt/2^{j}')
+            r = call_impl(_x2_spectrum, v, dt * k, 'calc', kw)
+            ok = r[0] == 'ok' and gen.scaled_exactly(r[1][0].real, fas.real, k) and gen.scaled_exactly(r[1][0].imag, fas.imag, k) and gen.scaled_exactly(r[1][1], freqs, 1 / k)
+            ctx.oracle('C06 fas(a, 2^j dt) == 2^j fas(a, dt) and the frequencies scale by 2^-j, exactly, also for extreme time steps', ok, {**inputs, 'dt_scale': f'2**{j}'})
+            if unique_peak and mode[0] == 'default' and p0[0] == 'ok':
+                p = call_impl(im.max_fa_period, ctx.aged(eqsig.AccSignal, v, dt * k))
+                ctx.oracle('C06.h the dominant period scales exactly with the time step, also for extreme steps', p[0] == 'ok' and (float(p[1]) == float(p0[1]) * k), {**inputs, 'dt_scale': f'2**{j}'},
+                           detail={'base': p0[1], 'scaled': p[1]})
+            if r[0] == 'ok' and s0[0] == 'ok':
+                s = call_impl(fq.fas2values, np.array(r[1][0]), dt * k)
+                ctx.oracle('C06.g the inverse helper does not depend on a joint power-of-two rescaling of spectrum and time step (==)', s[0] == 'ok' and np.array_equal(s[1], s0[1]),
+                           {**inputs, 'dt_scale': f'2**{j}'})
+        # (b) containers / dtypes of the record
+        variants = [(lab, c, v) for lab, c in gen.container_variants(v)]
+        if whole:
+            variants += gen.narrow_int_variants(v)
+        for lab, c, fl in variants:
+            ctx.hist('record container=' + lab)
+            want = base if fl is v else call_impl(_x2_spectrum, fl, dt, 'calc', kw)
+            for how, kw2 in (('calc', kw), ('lazy', {}) if mode[0] == 'default' else ('Signal.gen', {'n': len(v)} if mode[0] == 'unpadded' else kw)):
+                r = call_impl(_x2_spectrum, c, dt, how, kw2)
+                if lab == 'float32':
+                    ok = r[0] == want[0] == 'ok' and r[1][0].shape == want[1][0].shape and bool(np.all(np.abs(r[1][0] - want[1][0]) <= 1e-5 * max(float(np.max(np.abs(want[1][0]))), 1e-300))) \
+                        and np.array_equal(r[1][1], want[1][1])
+                else:
+                    ok = r[0] == want[0] == 'ok' and np.array_equal(r[1][0], want[1][0]) and np.array_equal(r[1][1], want[1][1])
+                ctx.oracle('C06 a record given as list / tuple / integer (any width) / strided ndarray (==) or float32 (1e-5) has the spectrum and grid of the same numbers in float64', ok,
+                           {'values': fl, 'dt': dt, 'mode': list(mode), 'container': lab, 'entry': how}, detail=None if r[0] == 'ok' else r)
+        if s0[0] == 'ok':
+            for lab, fc in (('list', list(fas)), ('tuple', tuple(fas)), ('strided', np.repeat(fas, 2)[::2])):
+                s = call_impl(fq.fas2values, fc, dt)
+                ctx.oracle('C06.g fas2values accepts the spectrum as list / tuple / strided array and returns the same samples (==)', s[0] == 'ok' and np.array_equal(s[1], s0[1]),
+                           {'fas': fas, 'dt': dt, 'container': lab}, detail=None if s[0] == 'ok' else s)
+        # (c) history on one object: explicit regenerations that share some but not all of (p2_plus, n), reads in between, record replaced
+        o = eqsig.AccSignal(v.copy(), dt) if rng.random() < 0.5 else eqsig.Signal(v.copy(), dt)
+        cur = v.copy()
+        cur_kw = {'p2_plus': 0}
+        held, hist = [], []
+        for step in range(rng.randint(3, 6)):
+            op = rng.choice(['gen(same)', 'gen(p2_plus)', 'gen(n)', 'gen(n, p2_plus)', 'generate_fa_spectrum()', 'read', 'reset_values', 'reset_values(other length)', 'add_constant'])
+            if op == 'gen(p2_plus)':
+                cur_kw = {'p2_plus': rng.randint(0, 3)}
+            elif op == 'gen(n)':
+                cur_kw = {'n': rng.choice([len(cur), len(cur) + 1, 2 * len(cur) + 1, max(2, len(cur) - 1), 64])}
+            elif op == 'gen(n, p2_plus)':
+                cur_kw = {'n': cur_kw.get('n', len(cur) + 3), 'p2_plus': rng.randint(1, 2)}
+            if op.startswith('gen('):
+                o.gen_fa_spectrum(**cur_kw)
+            elif op == 'generate_fa_spectrum()':
+                cur_kw = {'p2_plus': 0}
+                o.generate_fa_spectrum()
+            elif op == 'reset_values':
+                cur = cur[::-1] * 2.0
+                o.reset_values(cur.copy())
+                cur_kw = {'p2_plus': 0}
+            elif op == 'reset_values(other length)':
+                cur = gen.dyadic_record(rng, rng.randint(3, 150))
+                o.reset_values(cur.copy())
+                cur_kw = {'p2_plus': 0}
+            elif op == 'add_constant':
+                o.add_constant(0.5)
+                cur = cur + 0.5
+                cur_kw = {'p2_plus': 0}
+            hist.append(op if not op.startswith('gen(') else f'gen_fa_spectrum({cur_kw})')
+            want = _x2_spectrum(cur, dt, 'calc', {'n': cur_kw['n']} if 'n' in cur_kw else cur_kw)
+            got = call_impl(lambda: (o.fa_spectrum, o.fa_frequencies, o.fa_spectrum_abs, o.fa_freqs))
+            ok = got[0] == 'ok' and np.array_equal(got[1][0], want[0]) and np.array_equal(got[1][1], want[1]) and np.array_equal(got[1][2], np.abs(want[0])) and np.array_equal(got[1][3], want[1])
+            ctx.hist('spectrum-history/' + op)
+            ctx.oracle('C06.d after any history (regenerations with other / the same padding, reads, record changes) the object reports the spectrum and grid of its CURRENT record '
+                       'for the LAST requested padding (default padding after a record change) (==)', ok, {'start values': v, 'dt': dt, 'history': list(hist), 'class': type(o).__name__},
+                       detail=None if got[0] != 'ok' else {'len': len(got[1][0]), 'want_len': len(want[0])}, facts={'history': list(hist)})
+            ctx.oracle('C06 spectra / grids read from an object earlier are not overwritten by later regenerations', all(np.array_equal(x, cp) for x, cp in held),
+                       {'start values': v, 'dt': dt, 'history': list(hist)}, facts={'history': list(hist)})
+            if got[0] == 'ok':
+                held.extend((x, np.array(x, copy=True)) for x in got[1])
+
+
+def extras2(ctx):
+    x2_large(ctx)
+    x2_small(ctx)
+
+
+_run_main2 = run
+
+
+def run(ctx):
+    _run_main2(ctx)
+    extras2(ctx)
+    ctx.flush()
